@@ -250,7 +250,8 @@ Spellings(specs, mode, inv) ==
 (* is [ok, opts: Seq([i, sp, f, has, k, arg]), operands, err, fld, pn]:    *)
 (* f / k = index of the argument the occurrence's location / the           *)
 (* option-argument's origin points to (k = 0: none); fld = text of the     *)
-(* field reported by ParseError::field(); pn = the parser panicked.        *)
+(* field reported by ParseError::field() and fo its index; oo = indices of *)
+(* the arguments the operands' origins point to; pn = the parser panicked. *)
 (***************************************************************************)
 Expected(argv, r) ==
   [ok |-> r.ok,
@@ -273,6 +274,8 @@ Conforms(specs, mode, argv, obs) ==
                      /\ obs.opts[n].has = e.opts[n].has
                      /\ obs.opts[n].arg = e.opts[n].arg
                 /\ obs.operands = e.operands
+                /\ obs.oo = [n \in 1..Len(e.operands) |-> r.p + n - 1]
      /\ ~r.ok => /\ obs.err \in r.errs
+                 /\ obs.fo = r.at
                  /\ obs.fld = argv[r.at]
 =============================================================================
